@@ -4,7 +4,6 @@ import (
 	"context"
 	"encoding/json"
 	"fmt"
-	"math/big"
 	"strings"
 	"testing"
 
@@ -349,11 +348,9 @@ func TestPropRPCStorageProof(t *testing.T) {
 							existing = append(existing, a)
 						}
 					}
-					maxSC := 3
-					if stats.Known(kfRPCStorageOrder) {
-						// the order oracle is replaced by "some bijection verifies" (see below); nothing is excluded from generation
-					}
-					for _, a := range subset(rt, existing, maxSC, "storageContracts") {
+					// (while the order finding is listed as known the order oracle below is replaced by "some bijection
+					// verifies"; generation is unchanged)
+					for _, a := range subset(rt, existing, 3, "storageContracts") {
 						keyPool := append(append([]felt.Felt{}, u.Keys...), extraKeys...)
 						if ct := st.Contracts[a]; len(ct.Storage) > 0 {
 							ks := sortedKeys(ct.Storage)
@@ -578,5 +575,3 @@ func mustJSON(v any) string {
 	}
 	return string(b)
 }
-
-var _ = big.NewInt
